@@ -26,4 +26,37 @@ theorem isDigit_tie (c : Nat) :
   show isDigit c = true ↔ 48 ≤ c ∧ c ≤ 57
   simp [isDigit]
 
+/-! ### non-ASCII runes and the read position -/
+
+/-- the predicates of package `unicode` that `lexer.isIdentifier` calls: the model's `uIdent` is
+    `uLetter || uDigit` -/
+theorem identClasses_tie : Risor.Generated.C20.identClasses = ["IsLetter", "IsDigit"] := by decide
+
+/-- the predicates `lexer.readNumber` calls on the rune after a number: the model's `uNumTrail`
+    is `uLetter || uNumber` -/
+theorem numberTrailClasses_tie : Risor.Generated.C20.numberTrailClasses = ["IsLetter", "IsNumber"] := by decide
+
+/-- `lexer.readIdentifier` compares the rune after an identifier with `unicode.MaxASCII` (127):
+    the `c > 127` branch of the model's `.ident` state -/
+theorem identEndNames_tie : Risor.Generated.C20.identEndNames = ["MaxASCII"] := by decide
+
+/-- the tables behind `unicode.IsLetter` / `IsDigit` / `IsNumber` of the Go toolchain risor is
+    compiled with are the tables of Unicode.lean -/
+theorem letterRanges_tie : Risor.Generated.C20.letterRanges = letterRanges := by decide +kernel
+theorem digitRanges_tie : Risor.Generated.C20.digitRanges = digitRanges := by decide +kernel
+theorem numberRanges_tie : Risor.Generated.C20.numberRanges = numberRanges := by decide +kernel
+
+/-- **`readChar` alone moves the lexer.**  It is the only method of `Lexer` that assigns
+    `position`, `nextPosition`, `column`, `line`, `lineStart` or `ch`: the read position advances
+    one RUNE at a time and the line/column bookkeeping sees every rune — what makes a token's
+    position a function of its rune offset (`posAt`) and `run`'s offsets list positions.  A
+    helper that jumps (by a distance measured in bytes, say) breaks this tie. -/
+theorem posWriters_tie : Risor.Generated.C20.posWriters = ["readChar"] := by decide
+
+/-- the lexer holds its input as a rune slice and in no other form (no string or byte view whose
+    indices could be mixed up with rune offsets) -/
+theorem lexerFields_tie : Risor.Generated.C20.lexerFields =
+    ["ch:rune", "characters:[]rune", "column:int", "file:string", "line:int", "lineStart:int",
+     "nextPosition:int", "position:int", "prevToken:token.Token", "tokenStartPosition:token.Position"] := by decide
+
 end Risor.C20
